@@ -323,3 +323,10 @@ func TestCMPPStatusReport(t *testing.T) {
 		}
 	})
 }
+
+// FuzzReceipts: the receipt property driven by Go's coverage-guided fuzzer (thorough tier).
+func FuzzReceipts(f *testing.F) {
+	f.Fuzz(rapid.MakeFuzz(func(t *rapid.T) {
+		eval(t, drawCase(t, rapid.SampledFrom([]string{"smpp", "smgp"}).Draw(t, "variant")))
+	}))
+}
